@@ -276,7 +276,7 @@ package queue
 // Recovery: the metadata of an id can be read only when its metadata file exists; a retry is scheduled only for ids
 // whose metadata was read and whose header and body files exist; files are removed only for ids that are not scheduled.
 //@ func (*Queue).readMessageMeta
-//@   prop C02
+//@   prop C02 C10
 //@   requires q != nil
 //@   ensures result1 == nil ==> result0 != nil && fsSt[metaP(q, id)] != 0
 //@ func (*Queue).readDiskQueue
